@@ -136,6 +136,30 @@ impl Property for C17 {
                 case.set("wide", 1);
             }
         }
+        if family == "context" && rng.chance(1, 500) {
+            // a crowd: more values (and lines) than sixteen bits count, tiny ones, one per
+            // line, on stdin in one piece; ordinals and line numbers only
+            let n = rng.range(65_600, 66_100);
+            let v: &[u8] = *rng.pick(&[&b"7"[..], b"[]", b"{}", b"\"a\""]);
+            case.pieces.clear();
+            for i in 0..n {
+                case.pieces.push(Piece::rec(v.to_vec(), i as u32));
+                case.pieces.push(Piece::gap(vec![b'\n']));
+            }
+            case.opts = vec![
+                vec!["--select".into(), "&index=i".into()],
+                vec!["--select".into(), "&index-in-file=f".into()],
+                vec!["--select".into(), "&started-at-line-number=sl".into()],
+                vec!["--select".into(), "&ended-at-line-number=el".into()],
+            ];
+            case.set("files", 0);
+            case.set("max_events", 8_000_000);
+            case.delivery = Delivery {
+                whole: true,
+                ..Delivery::default()
+            };
+            return case;
+        }
         match family {
             "context" => {
                 if rng.chance(1, 5) {
